@@ -74,21 +74,25 @@ func c13Perms(n int) [][]int {
 	return out
 }
 
-func c13Scenario(c *choice.Ctx, rep *report.R, maxK int, rich bool, fullSeg bool) {
+func c13Scenario(c *choice.Ctx, rep *report.R, minK, maxK int, rich bool, fullSeg bool) {
 	own := env.InstallOwn(0xA5, vRace)
 	defer env.UninstallOwn()
 	kind := []string{"tcp", "gnet"}[c.Choose(2, "listener")]
-	k := 1 + c.Choose(maxK, "k")
+	k := minK + c.Choose(maxK-minK+1, "k")
 	limit := []int32{100, 1, 2}[c.Choose(3, "limit")]
 	var frames [][]byte
 	var stream []byte
 	for i := 0; i < k; i++ {
-		f := refdns.Frame(c13Query(i).Encode(false))
+		q := c13Query(i)
+		if fullSeg {
+			q.Q[0].Name = nil // the shortest possible query: every segmentation of its 19 byte frame is enumerated
+		}
+		f := refdns.Frame(q.Encode(false))
 		frames = append(frames, f)
 		stream = append(stream, f...)
 	}
 	var cuts []int
-	if fullSeg && k == 1 {
+	if fullSeg {
 		for i := 1; i < len(stream); i++ {
 			cuts = append(cuts, i)
 		}
@@ -175,6 +179,9 @@ func c13Scenario(c *choice.Ctx, rep *report.R, maxK int, rich bool, fullSeg bool
 	upBefore := len(u.Queries())
 	for i := 0; i < k; i++ {
 		m := c13Query(i)
+		if fullSeg {
+			m.Q[0].Name = nil
+		}
 		m.ID += 0x10
 		send(refdns.Frame(m.Encode(false)))
 	}
@@ -247,13 +254,23 @@ func TestVerifC13(t *testing.T) {
 	rep := report.New("C13 stream framing")
 	defer rep.Write()
 	maxK := report.ParamInt("MAXK", 2)
-	rich := report.ParamInt("RICH", 1) == 1
+	coarseK := report.ParamInt("COARSEK", 3)
 	full := report.ParamInt("FULLSEG", 0) == 1
-	rep.Rule = fmt.Sprintf("E3 differential: k in 1..%d pipelined queries (distinct ids, 36..50 byte frames) x every subset of the candidate cuts {inside the length prefix, prefix|body, after the first body byte, mid body, before the last byte, frame|frame}%s "+
+	rep.Rule = fmt.Sprintf("E3 differential: k in 1..%d pipelined queries (distinct ids, 36..50 byte frames) x every subset of the candidate cuts {inside the length prefix, prefix|body, after the first body byte, mid body, before the last byte, frame|frame}; k = %d with the coarse cuts {inside prefix, mid body, frame|frame}%s "+
 		"x per-connection limit {100,1,2} x every completion order of the accepted handlers x {responses written directly, response writes parked and released in reverse order}; the same script is fed to tcpServer.handleConn and to gnetServer.OnTraffic (fake gnet.Conn, one OnTraffic per segment); "+
 		"oracle: every frame decoded exactly once, response stream is a concatenation of well-formed frames, one response per query id, surplus over the limit gets REFUSED, none dropped",
-		maxK, map[bool]string{true: " (k=1: every one of the 2^(n-1) segmentations)", false: ""}[full])
-	st := runExplore(t, rep, -1, func(c *choice.Ctx) { c13Scenario(c, rep, maxK, rich, full) })
-	rep.Count("executions", st.Executions)
+		maxK, coarseK, map[bool]string{true: "; a single 19-byte query in every one of its 2^18 segmentations", false: ""}[full])
+	bubble(t, func() {
+		st := runExplore(t, rep, -1, func(c *choice.Ctx) { c13Scenario(c, rep, 1, maxK, true, false) })
+		rep.Count("executions_rich", st.Executions)
+		if coarseK > maxK {
+			st = runExplore(t, rep, -1, func(c *choice.Ctx) { c13Scenario(c, rep, maxK+1, coarseK, false, false) })
+			rep.Count("executions_coarse", st.Executions)
+		}
+		if full {
+			st = runExplore(t, rep, -1, func(c *choice.Ctx) { c13Scenario(c, rep, 1, 1, false, true) })
+			rep.Count("executions_fullseg", st.Executions)
+		}
+	})
 	rep.Sample(map[string]any{"listener": "gnet", "k": 2, "segments": "[1 40 3 ...]", "limit": 1, "expect": "id 0x1300 answered, id 0x1301 REFUSED, two well-formed frames"})
 }
